@@ -341,7 +341,7 @@ ZfInsert(r) ==
 ZfReject(r, cls) ==
   /\ phase = "zonefile" /\ r \notin zf
   /\ (cls = "IN" => ~Admits(zf, r))
-  /\ act' = [a |-> "ZfReject", n |-> r[1], t |-> r[2], x |-> r[3], cls |-> cls]
+  /\ act' = [a |-> "ZfReject", n |-> r[1], t |-> r[2], x |-> r[3], cls |-> cls, zf |-> zf]
   /\ UNCHANGED <<store, current, allv, wlock, wst, wkind, wnv, dirty, readers, phase, zf, committed, pend, nops, snap>>
 
 Build ==
